@@ -93,6 +93,11 @@ def known(ctx: Any) -> List[Ob]:
     obs.append(ob(R, grp, 'generate_service_query(now) -> _group...(now) -> _DNSPointerOutgoingBucket(now)', 'the bucket time is the time the known answers were selected at', chain_ok))
     # every question with its answers ends in exactly one bucket
     obs.append(ob(R, grp, 'for/else bucket placement', 'each question goes to the first bucket with room or to a new one (exactly once)', _bucket_once(ctx, grp)))
+    obs.extend(bucket_add_obligations(ctx, R))
+    rets_g = [r for r in walk_local_ordered(grp.node) if isinstance(r, ast.Return) and r.value is not None]
+    lists_g = {c.func.value.id for c in walk_local_ordered(grp.node) if isinstance(c, ast.Call) and call_name(c) == 'append' and isinstance(c.func, ast.Attribute) and isinstance(c.func.value, ast.Name)}
+    ok_ret = len(rets_g) == 1 and isinstance(rets_g[0].value, ast.ListComp) and len(rets_g[0].value.generators) == 1 and not rets_g[0].value.generators[0].ifs and norm(rets_g[0].value.generators[0].iter) in lists_g and norm(rets_g[0].value.elt) == norm(rets_g[0].value.generators[0].target) + '.out'
+    obs.append(ob(R, grp, rets_g[0].value if rets_g else 'return', 'the messages of all buckets are handed back (none filtered out)', ok_ret))
     obs.extend(write_ttl_obligations(ctx, R))
     return obs
 
@@ -146,18 +151,68 @@ def write_ttl_obligations(ctx: Any, R: str) -> List[Ob]:
 
 
 def _bucket_once(ctx: Any, grp: FuncInfo) -> bool:
-    def eff(node: Any, evl: Any) -> List[Any]:
-        return ['ADD' for c in node.calls() if call_name(c) == 'add' and isinstance(c.func, ast.Attribute) and isinstance(c.func.value, ast.Name) and 'bucket' in c.func.value.id]
-
+    """One trip of the placement loop puts the question of that trip, with its answers and its size, into exactly one bucket --
+    on every path -- and a bucket that was created in the trip is appended to the list the result is built from."""
     cfg = cfg_of(grp.node)
     outer = [n for n in cfg.nodes if n.kind == 'for' and not n.in_loop]
     if not outer:
         return False
-    oc, _ = fd.run_paths(ctx.prog, grp.module, cfg, {}, eff, start=outer[-1], stop=lambda n: n is outer[-1], loop_bound=1)
-    iter_paths = [t for t in oc]
-    # paths that iterate the outer loop once: exactly one ADD; the 'done' path: none
-    counts = {t.count('ADD') for t in iter_paths}
-    return counts <= {0, 1} and 1 in counts
+    head = outer[-1]
+    qv = head.ast.target.id if isinstance(head.ast.target, ast.Name) else None
+
+    def eff(node: Any, evl: Any) -> List[Any]:
+        out = []
+        for c in node.calls():
+            if call_name(c) == 'add' and isinstance(c.func, ast.Attribute) and isinstance(c.func.value, ast.Name) and 'bucket' in c.func.value.id:
+                out.append(('ADD', tuple(norm(a) for a in c.args)))
+            if call_name(c) == '_DNSPointerOutgoingBucket':
+                out.append('NEW')
+            if call_name(c) == 'append' and isinstance(c.func, ast.Attribute) and isinstance(c.func.value, ast.Name) and 'bucket' in c.func.value.id:
+                out.append('APPEND')
+        return out
+
+    oc, _ = fd.run_paths(ctx.prog, grp.module, cfg, {}, eff, start=head, stop=lambda n: n is head, loop_bound=1, for_iter=lambda n, e: True if n is head else None)
+    if not oc:
+        return False
+    for t in oc:
+        lab = [x for x in t if x in ('NEW', 'APPEND') or (isinstance(x, tuple) and x and x[0] == 'ADD')]
+        adds = [x for x in lab if isinstance(x, tuple)]
+        if len(adds) != 1:
+            return False
+        if qv is not None and (len(adds[0][1]) != 3 or adds[0][1][1] != qv):
+            return False
+        if ('NEW' in lab) != ('APPEND' in lab):
+            return False
+        if 'NEW' in lab and not (lab.index('NEW') < lab.index(adds[0]) and lab.index('NEW') < lab.index('APPEND')):
+            return False
+    return True
+
+
+def bucket_add_obligations(ctx: Any, R: str) -> List[Ob]:
+    """What putting a question into a bucket does: the question is added to the bucket's message, every known answer is added with
+    the bucket's time (so it is written with its remaining TTL), and the size estimate is accounted for."""
+    prog = ctx.prog
+    b = prog.func('zeroconf._services.browser._DNSPointerOutgoingBucket.add')
+    me, p_size, p_q, p_ans = b.params[0], b.params[1], b.params[2], b.params[3]
+    cfg = cfg_of(b.node)
+
+    def eff(node: Any, evl: Any) -> List[Any]:
+        out = []
+        for c in node.calls():
+            if call_name(c) == 'add_question':
+                out.append(('Q', tuple(norm(a) for a in c.args)))
+            if call_name(c) in ('add_answer_at_time', 'add_answer'):
+                out.append(('A', tuple(norm(a) for a in c.args), bool(node.in_loop)))
+        if node.kind == 'stmt' and isinstance(node.ast, ast.AugAssign) and self_attr(node.ast.target, me) == 'bytes':
+            out.append(('BYTES', norm(node.ast.value)))
+        return out
+
+    oc, _ = fd.run_paths(prog, b.module, cfg, {}, eff, loop_bound=1, for_iter=lambda n, e: True)
+    loops = [n for n in cfg.nodes if n.kind == 'for']
+    lv = loops[0].ast.target.id if len(loops) == 1 and isinstance(loops[0].ast.target, ast.Name) and norm(loops[0].ast.iter) == p_ans else None
+    seqs = {tuple(x for x in strip_ret(t) if isinstance(x, tuple)) for t in oc}
+    want = {(('Q', (p_q,)), ('A', (lv, f'{me}.now_millis'), True), ('BYTES', p_size))}
+    return [ob(R, b, 'self.out.add_question(question); for answer in answers: self.out.add_answer_at_time(answer, self.now_millis); self.bytes += size', 'a bucket takes the question, each of its known answers at the bucket\'s time, and the size estimate -- on every path', lv is not None and seqs == want, f'effects {sorted(map(str, seqs))[:2]}')]
 
 
 def _browser_qu_local(g: FuncInfo) -> str:
@@ -491,6 +546,31 @@ def qufirst(ctx: Any) -> List[Ob]:
                     qus = qu_of(qt, mc)
                     want = (qt == QU) if qt is not None else (not mc)
                     obs.append(ob(R, g, f'browser builder: type={qt} multicast={mc}', f'questions are {"QU" if want else "QM"}', qus == {want}, f'got {qus}'))
+    # ... and that decision reaches the wire: each question the builder makes gets its QU bit from the decision, before the
+    # question is used for anything (history, the table of questions to send)
+    quv_b = _browser_qu_local(g)
+    gcfg = cfg_of(g.node)
+    gloops = [n for n in gcfg.nodes if n.kind == 'for' and not n.in_loop]
+    if len(gloops) != 1:
+        raise AnalysisError('anchor vanished: the per-type loop of the browser query builder')
+
+    def eff_qb(node: Any, evl: Any) -> List[Any]:
+        out = []
+        if node.kind == 'stmt':
+            for t_, st_ in attr_stores(node.ast):
+                if t_.attr in ('unicast', 'unique') and isinstance(st_, ast.Assign):
+                    out.append(('QUBIT', norm(st_.value)))
+            if isinstance(node.ast, ast.Assign) and isinstance(node.ast.targets[0], ast.Subscript):
+                out.append('USE')
+        for c in fd.node_calls(node, evl):
+            if call_name(c) in ('suppresses', 'add_question_at_time'):
+                out.append('USE')
+        return out
+
+    oc_qb, _ = fd.run_paths(prog, g.module, gcfg, {}, eff_qb, start=gloops[0], stop=lambda n: n is gloops[0], loop_bound=1, for_iter=lambda n, e: True if n is gloops[0] else None)
+    seq_qb = {tuple(x for x in strip_ret(t) if x == 'USE' or isinstance(x, tuple) and x[0] == 'QUBIT') for t in oc_qb}
+    ok_qb = bool(seq_qb) and all(sq and sq[0] == ('QUBIT', quv_b) and sum(1 for x in sq if isinstance(x, tuple)) == 1 for sq in seq_qb)
+    obs.append(ob(R, g, f'question.unicast = {quv_b}', 'every question of the browser query carries the QU bit that was decided, set before the question is used', ok_qb, f'per type: {sorted(map(str, seq_qb))[:3]}'))
     # start-up: first request flag is `no start-up query sent yet`
     su = prog.func('zeroconf._services.browser.QueryScheduler._process_startup_queries')
     calls = [c for c in walk_local_ordered(su.node) if isinstance(c, ast.Call) and call_name(c) == 'async_send_ready_queries']
